@@ -30,6 +30,7 @@ type c09Sent struct {
 
 type c09World struct {
 	S, R   *vDev
+	R2     *vDev // a further receiving device (of R's account) with a key window of 3, reading in completion order
 	ds     *recDS
 	groups []*protocoltypes.Group
 	c0     []uint64
@@ -61,6 +62,7 @@ func c09NewWorld(kinds []int, pre int) *c09World {
 		}
 		w.groups = append(w.groups, g)
 	}
+	w.R2 = vSecondDevice("R2", w.R, 3, 8)
 	for _, g := range w.groups {
 		if err := w.S.s.PutGroup(vctx, g); err != nil {
 			panic(err)
@@ -68,10 +70,16 @@ func c09NewWorld(kinds []int, pre int) *c09World {
 		if err := w.R.s.PutGroup(vctx, g); err != nil {
 			panic(err)
 		}
+		if err := w.R2.s.PutGroup(vctx, g); err != nil {
+			panic(err)
+		}
 		for i := 0; i < pre; i++ {
 			vSeal(w.S, g, []byte("pre"))
 		}
 		if err := vShare(g, w.S, w.R); err != nil {
+			panic(err)
+		}
+		if err := vShare(g, w.S, w.R2); err != nil {
 			panic(err)
 		}
 		ck, err := w.S.s.getDeviceChainKeyForGroupAndDevice(vctx, vGroupPK(g), w.S.md(g).Device())
@@ -129,6 +137,35 @@ func c09Judge(w *c09World, sent []c09Sent, decreases []string) (id, msg string) 
 			if !bytes.Equal(o.Payload, it.s.payload) {
 				return "receiver-wrong-payload", fmt.Sprintf("group %d counter %d opens to %q, sealed %q", gi, it.k, trunc(o.Payload, 30), trunc(it.s.payload, 30))
 			}
+		}
+		// a receiver with a small key window reads the envelopes in the order in which they were handed out (the order
+		// of the log, not of the counters), retrying what is not openable yet after every success, as the message store
+		// does: in the end every envelope has opened
+		pending := []c09Sent{}
+		for _, s := range sent {
+			if s.group == gi && w.R2 != nil {
+				pending = append(pending, s)
+			}
+		}
+		for progress := true; progress && len(pending) > 0; {
+			progress = false
+			var still []c09Sent
+			for _, s := range pending {
+				o, err := vOpen(w.R2, g, s.env, vCID(s.env))
+				if err != nil {
+					still = append(still, s)
+					continue
+				}
+				progress = true
+				if !bytes.Equal(o.Payload, s.payload) {
+					return "receiver-wrong-payload", fmt.Sprintf("group %d: an envelope opens to %q, sealed %q, on the receiver reading in completion order", gi, trunc(o.Payload, 30), trunc(s.payload, 30))
+				}
+			}
+			pending = still
+		}
+		if len(pending) > 0 {
+			_, hdr, _ := w.R2.s.OpenEnvelopeHeaders(pending[0].env, g)
+			return "receiver-cannot-open/completion-order", fmt.Sprintf("group %d: a receiver with a key window of 3 reading the %d envelopes in the order they were handed out (retrying after every success) is left with %d it cannot open, first counter %d", gi, len(items), len(pending), hdr.GetCounter())
 		}
 		// the stored counter ends at c0 + number of sends
 		ck, err := w.S.s.getDeviceChainKeyForGroupAndDevice(vctx, vGroupPK(g), w.S.md(g).Device())
